@@ -71,7 +71,7 @@ CLAIMS = {
         note="Extraction functions only; the remote child's delivered record is collector behaviour. " + _COLL + _TB),
     "C12": dict(
         text="encode_w3c_traceparent for all 2^193 contexts: 55 bytes, fixed separators, every hex digit correct and lowercase, flags 00/01; "
-             "decode never panics and equals a 25-line reference parser on every ASCII string of <=4 bytes and on 00-H-H-HH / 00-HH-HH-HH field shapes; "
+             "decode never panics and equals a 25-line reference parser on every ASCII string of <=4 bytes, on every flags field of 0..3 bytes (00-a-b-XYZ) and every 2-byte version field (VW-a-b-01), any ASCII incl. '-', and (thorough) on 00-H-H-HH / 00-HH-HH-HH field shapes and single-byte corruptions of a 24-byte header; "
              "Display of both id types is fixed-width lowercase hex for all values; FromStr equals the radix-16 grammar on strings of <=3 bytes.",
         note="Decode is bounded to short inputs; uniform behaviour of str::split / from_str_radix on longer fields is std's contract; serde not covered. "
              "Stubs: alloc::fmt::format (String+write_fmt), core::slice::memchr::memchr (naive loop), identical results. " + _TB),
@@ -81,7 +81,7 @@ CLAIMS = {
              "enter_on_poll without a parent do nothing.",
         note="<= 2 polls per harness, one adapter, spans built directly. " + _COLL + _TB),
     "C14": dict(
-        text="Stream::poll_next and Sink::{poll_ready,start_send,poll_flush,poll_close} scope the span and restore the context; the span finishes exactly "
+        text="Stream::poll_next and Sink::{poll_ready,start_send,poll_flush,poll_close} scope the span, restore the context and pass the inner result through for every inner result (Pending / Ready(Some); Ready(Ok) / Ready(Err) / Pending); the span finishes exactly "
              "at end of stream / completed close, with that call's local spans handed over before a root's commit; no-op spans do nothing.",
         note="One call per harness on hand-written Stream/Sink probes. " + _COLL + _TB),
     "C15": dict(
@@ -95,7 +95,7 @@ CLAIMS = {
     "C16": dict(
         text="Built without `enable`: every public entry point returns the no-op value, no property closure runs, no context exists, no command ring is "
              "created. With `enable`: roots before a reporter, children of no-ops, unsampled scopes and operations without a scope hand nothing over "
-             "and never call a property closure.",
+             "and never call a property closure; every closure-taking public entry point (Span and LocalSpan routes) called once on a root created before a reporter, Span::noop(), their children, and with no local parent: no closure call, no context, nothing handed over.",
         note="'no thread' is not modelled (set_reporter / flush are never executed). " + _TB),
     "C17": dict(
         text="push_child_spans hands over one SharedLocalSpans per parent with the same Arc, under that parent's issued token; an empty set pushes nothing; "
@@ -106,7 +106,7 @@ CLAIMS = {
              "within the open span (all clock steps 0..255 per reading); Span::drop stamps the end instant; elapsed() = now - begin (< 2^31 ns), None for no-op.",
         note="Model clock; the anchor conversion to unix nanoseconds, the float cycle scaling and the wall-clock window are not decided. " + _COLL + _TB),
     "C20": dict(
-        text="The real try_report loop, for every vector of per-span encoded sizes in 1..=9000 (2-3 spans, 4 in the thorough tier): every datagram < 8000 "
+        text="The real try_report loop, for every vector of per-span encoded sizes in 1..=9000 (batches of 2, 3, 5, 7, 8 spans; 4 and 6 in the thorough tier): every datagram < 8000 "
              "bytes, every span that fits alone is sent exactly once in order, oversize spans are skipped without affecting neighbours, the loop terminates "
              "(unwinding assertion).",
         note="convert / serialize / UdpSocket::send_to are oracle stubs; assumption: the real encoder's length is additive in the spans. "
